@@ -20,13 +20,19 @@ ASSUMPTIONS = ["integer costs and dyadic heuristic scalings keep A*'s float arit
 
 
 @st.composite
-def graph_specs(draw, tier="quick"):
-    n = draw(st.integers(1, 9 if tier == "thorough" else 7))
+def graph_specs(draw, tier="quick", large=None):
+    large = draw(st.integers(0, 5)) == 0 if large is None else large
+    if large:
+        # big frontiers: many nodes, higher out-degree, wide cost range (queue revision / heap order matter)
+        n = draw(st.integers(10, 40))
+    else:
+        n = draw(st.integers(1, 9 if tier == "thorough" else 7))
     scheme = draw(st.sampled_from(["int", "str", "tuple"]))
     labels = [[i, f"n{i}", (i // 3, i % 3)][["int", "str", "tuple"].index(scheme)] for i in range(n)]
     perm = draw(st.permutations(list(range(n))))
     labels = [labels[perm[i]] for i in range(n)]
-    nact = draw(st.integers(1, 3))
+    nact = draw(st.integers(2, 5)) if large else draw(st.integers(1, 3))
+    maxcost = 20 if large else 5
     edges = []
     for u in range(n):
         k = draw(st.integers(0 if n > 1 else 0, nact))
@@ -34,12 +40,14 @@ def graph_specs(draw, tier="quick"):
         row = []
         for a in acts:
             v = draw(st.integers(0, n - 1))
-            if draw(st.integers(0, 2)) > 0 and n > 1:
+            if draw(st.integers(0, 2)) > 0 and n > 1 and not large:
                 v = min(n - 1, u + draw(st.integers(1, 2)))
-            row.append([a, v, draw(st.integers(0, 5))])
+            row.append([a, v, draw(st.integers(0, maxcost))])
         edges.append(row)
     ng = draw(st.integers(0, 3))
     goals = sorted(set(draw(st.lists(st.integers(0, n - 1), min_size=ng, max_size=ng))))
+    if large:
+        goals = [g for g in goals if g >= n // 2] or [n - 1]
     return {
         "n": n, "labels": [enc(l) for l in labels], "edges": edges, "goals": goals,
         "start": draw(st.integers(0, n - 1)),
@@ -271,6 +279,31 @@ def prop_reuse(case, ctx):
     ctx.nontrivial(case["a"] != case["b"])
 
 
+def _expand_bulk(params):
+    """a large random multigraph expanded deterministically from a drawn integer (the expanded graph, not the
+    integer, is the case that is stored and replayed)"""
+    import random as _random
+    n, deg, maxc, fwd, seed = params
+    rng = _random.Random(seed)
+    edges = []
+    for u in range(n):
+        row = []
+        for a in range(rng.randint(1, deg)):
+            v = min(n - 1, u + rng.randint(1, fwd)) if rng.random() < 0.5 else rng.randrange(n)
+            row.append([a, v, rng.randint(0, maxc)])
+        edges.append(row)
+    return {"graph": {"n": n, "labels": list(range(n)), "edges": edges, "goals": [n - 1], "start": 0, "rep": "next_state",
+                      "init_rep": "initial_state"},
+            "heuristic": ["zero", "0.5", "exact"][seed % 3], "tie_breaking": ["lifo", "fifo", "random"][seed % 3],
+            "randomize_action_order": bool(seed % 2), "seed": seed if (seed % 3 == 2 or seed % 2) else None}
+
+
+def bulk_cases(tier):
+    """many large graphs with wide frontiers: rare queue-revision / heap-order shapes need volume, not shrinking"""
+    return st.tuples(st.integers(24, 40), st.integers(4, 8), st.sampled_from([20, 50, 100]), st.integers(3, 40),
+                     st.integers(0, 2 ** 40)).map(_expand_bulk)
+
+
 def all_small_graphs(tier):
     """every directed multigraph on n nodes (n <= 2 quick, n <= 3 thorough) in which each node has, for each of two
     actions, either no edge or an edge (target, cost in {0, 1}); every goal subset; start node 0 (by symmetry)"""
@@ -299,6 +332,8 @@ PROPS = [
                    doc="ALL multigraphs with <=2 nodes (quick) / <=3 nodes (thorough), 2 actions, costs {0,1}, every goal subset: A* and BFS"),
     Prop("reuse", lambda tier: reuse_cases(tier), prop_reuse, quick=600, thorough=36000,
          doc="a search object reused on a second problem gives the same result as a fresh one"),
+    Prop("astar_bulk", bulk_cases, prop_astar, quick=10000, thorough=600000,
+         doc="A* on many large random graphs (24-40 nodes, out-degree up to 8, costs up to 100) vs Dijkstra"),
     Prop("astar", lambda tier: astar_cases(tier), prop_astar, quick=4000, thorough=300000,
          doc="A* path validity and optimal cost vs Dijkstra"),
     Prop("bfs", lambda tier: bfs_cases(tier), prop_bfs, quick=3000, thorough=180000,
